@@ -1,3 +1,4 @@
+enable dual_source_blending;
 struct VOut { @builtin(position) pos: vec4<f32>, @location(0) uv: vec2<f32>, @location(1) @interpolate(flat) id: u32 }
 struct Buf { counter: atomic<u32>, data: array<u32> }
 @group(0) @binding(0) var<storage, read_write> buf: Buf;
@@ -22,3 +23,5 @@ fn work(n: u32) -> u32 {
   if h > pv { let t = u32(h) + old; buf.data[gid.x] = t; }
   pv = h;
 }
+struct FsOut { @location(0) @blend_src(0) color: vec4<f32>, @blend_src(1) @location(0) weight: vec4<f32> }
+@fragment fn fs(@location(0) uv: vec2<f32>, @interpolate(flat) @location(1) id: u32) -> FsOut { return FsOut(vec4<f32>(uv, f32(id), 1.0), vec4<f32>(0.5)); }
